@@ -107,6 +107,7 @@ def showVal : Val → String
   | .err n => s!"\"e{n}\""
   | .int n => s!"{n}"
   | .buf n => s!"buf{n}"
+  | .sup sig f => s!"(sup{sig},f{f})"
 
 def b (s : String) : Bool := s == "1"
 def n (s : String) : Nat := s.toNat!
@@ -142,6 +143,9 @@ def stepLine (s : DS) (toks : List String) : DS × String :=
   | ["fiber", name, _] =>
       let sc := s.sc
       ({ s with sc := { sc with fibers := sc.fibers.push { name := name } }, cur := some sc.fibers.size }, "ok")
+  | ["fiber", name, _, supc] =>
+      let sc := s.sc
+      ({ s with sc := { sc with fibers := sc.fibers.push { name := name, sup := some (Scn.chanIdx sc supc) } }, cur := some sc.fibers.size }, "ok")
   | "s" :: rest =>
       match s.cur with
       | none => (s, "error no-fiber")
